@@ -783,6 +783,48 @@ fn term_features(t: &mut Term, role: Role, ex: &mut Excl, tags: &mut Vec<&'stati
     }
 }
 
+/// does `text` contain what `([a-zA-Z_]\w*)\s*\(([^)]*)\)\s*(>=|<=|==|!=|>|<|contains|startsWith|endsWith|matches|in)\s*(.+)`
+/// matches (the condition parser's unanchored function-call pattern)?
+fn looks_like_call_comparison(text: &str) -> bool {
+    let b: Vec<char> = text.chars().collect();
+    const OPS: [&str; 11] = [">=", "<=", "==", "!=", ">", "<", "contains", "startsWith", "endsWith", "matches", "in"];
+    for j in 0..b.len() {
+        if b[j] != '(' {
+            continue;
+        }
+        // a word run (with at least one letter or underscore) before the parenthesis, blanks allowed in between
+        let mut i = j;
+        while i > 0 && b[i - 1].is_whitespace() {
+            i -= 1;
+        }
+        let mut k = i;
+        while k > 0 && (b[k - 1].is_ascii_alphanumeric() || b[k - 1] == '_') {
+            k -= 1;
+        }
+        if k == i || !b[k..i].iter().any(|c| c.is_ascii_alphabetic() || *c == '_') {
+            continue;
+        }
+        // the next closing parenthesis, then an operator, then something
+        let close = match b[j + 1..].iter().position(|c| *c == ')') {
+            Some(p) => j + 1 + p,
+            None => continue,
+        };
+        let mut r = close + 1;
+        while r < b.len() && b[r].is_whitespace() {
+            r += 1;
+        }
+        let rest: String = b[r..].iter().collect();
+        for op in OPS {
+            if let Some(after) = rest.strip_prefix(op) {
+                if !after.trim_start().is_empty() {
+                    return true;
+                }
+            }
+        }
+    }
+    false
+}
+
 fn max_layers(c: &Cond) -> usize {
     if matches!(c, Cond::Atom(_)) {
         2
@@ -825,6 +867,7 @@ fn cond_features(c: Cond, wraps: usize, ex: &mut Excl, tags: &mut Vec<&'static s
             inner
         }
         Cond::Atom(mut a) => {
+            let plain_cmp = matches!(a, Atom::Cmp { .. } | Atom::ArithCmp { .. });
             match &mut a {
                 Atom::Cmp { rhs, .. } => term_features(rhs, Role::CondVal, ex, tags),
                 Atom::ArithCmp { lhs, rhs, .. } => {
@@ -853,6 +896,39 @@ fn cond_features(c: Cond, wraps: usize, ex: &mut Excl, tags: &mut Vec<&'static s
                         term_features(x, Role::CondArg, ex, tags)
                     }
                     term_features(rhs, Role::CondVal, ex, tags)
+                }
+            }
+            // What is left of finding F10 on this side: the function-call pattern of the condition parser is unanchored
+            // and is tried before the plain comparison, so a comparison whose TEXT - string literals included - contains
+            // `name(...)` followed by a comparison operator (`X.s == "f(x) > 1"`, `"a(b" + ")<"`) is read as a call.
+            if plain_cmp && looks_like_call_comparison(&atom_text(&a)) {
+                if ex.active(F_STR_PAREN) {
+                    let fix = |t: &mut Term| match t {
+                        Term::Lit(Lit::Str(st)) => replace_all(&mut st.text, &["(", ")"], "_"),
+                        Term::Arith(ar) => {
+                            for tok in ar.0.iter_mut() {
+                                if let ATok::Str(st) = tok {
+                                    replace_all(&mut st.text, &["(", ")"], "_")
+                                }
+                            }
+                        }
+                        _ => {}
+                    };
+                    match &mut a {
+                        Atom::Cmp { rhs, .. } => fix(rhs),
+                        Atom::ArithCmp { lhs, rhs, .. } => {
+                            for tok in lhs.0.iter_mut() {
+                                if let ATok::Str(st) = tok {
+                                    replace_all(&mut st.text, &["(", ")"], "_")
+                                }
+                            }
+                            fix(rhs)
+                        }
+                        _ => {}
+                    }
+                    ex.hit(F_STR_PAREN);
+                } else {
+                    tags.push(FINDINGS[F_STR_PAREN].tag);
                 }
             }
             Cond::Atom(a)
